@@ -25,13 +25,14 @@ VARIABLES l,          \* next line of Trace
           pendErr,    \* an action of the last executed rule failed: "" or the rule name
           lastExec, done,
           viol,       \* flags raised: <<code, trace id, line>>
-          marks,      \* antecedents met: <<property, trace id>>  (non-triviality evidence)
+          marks,      \* antecedents met: code -> number of traces in which it occurred (non-triviality evidence)
+          seen,       \* antecedent codes already counted for the current trace
           hOn, hVars, \* C13: the program holds one counted method atom; the variables occurring in it
           hUsed, hLimit, \* real evaluations of it since the last invalidation / how many are admissible
           hFresh      \* the action list being executed holds an invalidation: the usage of the epoch it leaves is unknown
 
 vars == <<l, tid, mode, rules, maxc, flag, facts, retracted, complete, cancelled, cyc, evald, cands, execd,
-          prevEvald, prevCands, pendErr, lastExec, done, viol, marks, hOn, hVars, hUsed, hLimit, hFresh>>
+          prevEvald, prevCands, pendErr, lastExec, done, viol, marks, seen, hOn, hVars, hUsed, hLimit, hFresh>>
 hvars == <<hOn, hVars, hUsed, hLimit, hFresh>>
 
 T == Trace[l]
@@ -51,7 +52,11 @@ Check(ok, code) == IF ok THEN UNCHANGED viol ELSE Flag(code)
 RECURSIVE FirstBad(_, _)
 FirstBad(cs, i) == IF i > Len(cs) THEN "" ELSE IF cs[i][1] THEN FirstBad(cs, i + 1) ELSE cs[i][2]
 Checks(cs) == LET b == FirstBad(cs, 1) IN IF b = "" THEN UNCHANGED viol ELSE Flag(b)
-Mark(S) == marks' = marks \cup {<<p, tid>> : p \in S}
+\* (a function of counters, not a set of <<code, trace>> pairs: the monitor's state stays small, validation stays linear)
+Mark(S) == LET new == S \ seen IN
+           /\ seen' = seen \cup S
+           /\ marks' = [c \in DOMAIN marks \cup new |-> (IF c \in DOMAIN marks THEN marks[c] ELSE 0) + (IF c \in new THEN 1 ELSE 0)]
+NoMark == UNCHANGED <<marks, seen>>
 
 \* ---- C13: static text of access paths and the variables occurring in an expression ----
 RECURSIVE PText(_, _, _), EText(_), VarsIn(_), PathVars(_, _)
@@ -91,7 +96,7 @@ Invalidations(acts, i, s) ==
 Init == /\ l = 1 /\ tid = -1 /\ mode = "none" /\ rules = <<>> /\ maxc = 0 /\ flag = FALSE
         /\ facts = <<>> /\ retracted = {} /\ complete = FALSE /\ cancelled = FALSE /\ cyc = 0
         /\ evald = {} /\ cands = {} /\ execd = FALSE /\ prevEvald = {} /\ prevCands = {}
-        /\ pendErr = "" /\ lastExec = "" /\ done = TRUE /\ viol = {} /\ marks = {}
+        /\ pendErr = "" /\ lastExec = "" /\ done = TRUE /\ viol = {} /\ marks = <<>> /\ seen = {}
         /\ hOn = FALSE /\ hVars = {} /\ hUsed = 0 /\ hLimit = 1 /\ hFresh = FALSE
 
 Begin == /\ Is("begin")
@@ -99,7 +104,9 @@ Begin == /\ Is("begin")
          /\ facts' = T.facts /\ retracted' = {} /\ complete' = FALSE /\ cancelled' = FALSE /\ cyc' = 0
          /\ evald' = {} /\ cands' = {} /\ execd' = FALSE /\ prevEvald' = {} /\ prevCands' = {}
          /\ pendErr' = "" /\ lastExec' = "" /\ done' = FALSE
-         /\ marks' = IF T.call > 0 THEN marks \cup {<<"C08", T.id>>} ELSE marks
+         /\ seen' = IF T.call > 0 THEN {"C08"} ELSE {}
+         /\ marks' = IF T.call > 0 THEN [c \in DOMAIN marks \cup {"C08"} |-> (IF c \in DOMAIN marks THEN marks[c] ELSE 0) + (IF c = "C08" THEN 1 ELSE 0)]
+                     ELSE marks
          /\ hOn' = (T.counted.k = "call") /\ hVars' = VarsIn(T.counted) /\ hUsed' = 0 /\ hLimit' = 1 /\ hFresh' = FALSE
          /\ UNCHANGED viol
 
@@ -108,7 +115,7 @@ SetupFailed == /\ Is("setup-failed")
                /\ PrintT(<<"FLAG", "SETUP-" \o T.variant, T.id, l>>)
                /\ viol' = viol \cup {<<"SETUP-" \o T.variant, T.id, l>>}
                /\ UNCHANGED <<tid, mode, rules, maxc, flag, facts, retracted, complete, cancelled, cyc, evald,
-                              cands, execd, prevEvald, prevCands, pendErr, lastExec, done, marks, hvars>>
+                              cands, execd, prevEvald, prevCands, pendErr, lastExec, done, marks, seen, hvars>>
 
 CycleEv ==
   /\ Is("cycle")
@@ -121,7 +128,7 @@ CycleEv ==
   /\ facts' = T.facts        \* resynchronise
   /\ prevEvald' = evald /\ prevCands' = cands
   /\ evald' = {} /\ cands' = {} /\ execd' = FALSE
-  /\ marks' = IF hOn /\ hUsed >= 1 /\ ~hFresh /\ cyc >= 1 THEN marks \cup {<<"C13", tid>>} ELSE marks
+  /\ Mark(IF hOn /\ hUsed >= 1 /\ ~hFresh /\ cyc >= 1 THEN {"C13"} ELSE {})
   \* the calls of an invalidating action list may have come before the invalidation: the new epoch counts from 0
   /\ IF hFresh THEN hUsed' = 0 /\ hLimit' = 1 /\ hFresh' = FALSE ELSE UNCHANGED <<hUsed, hLimit, hFresh>>
   /\ UNCHANGED <<tid, mode, rules, maxc, flag, retracted, complete, cancelled, cyc, pendErr, lastExec, done, hOn, hVars>>
@@ -193,7 +200,7 @@ CallEv == /\ Is("call")
                   /\ Check(hUsed + 1 <= hLimit, "C13-evaluated-again-without-invalidation")
              ELSE UNCHANGED <<hUsed, viol>>
           /\ UNCHANGED <<tid, mode, rules, maxc, flag, facts, retracted, complete, cancelled, cyc, evald, cands,
-                         execd, prevEvald, prevCands, pendErr, lastExec, done, marks, hOn, hVars, hLimit, hFresh>>
+                         execd, prevEvald, prevCands, pendErr, lastExec, done, marks, seen, hOn, hVars, hLimit, hFresh>>
 
 CancelEv == /\ Is("cancel")
             /\ cancelled' = TRUE
@@ -267,6 +274,6 @@ Spec == Init /\ [][Next]_vars
 \* ---- acceptance: every line consumed; summary printed once at the end ----
 Finished == l = Len(Trace) + 1
 Summary == Finished => PrintT("SUMMARY " \o ToJson([lines |-> Len(Trace), flags |-> Cardinality(viol),
-                                  marks |-> [p \in {m[1] : m \in marks} |-> Cardinality({m \in marks : m[1] = p})]]))
+                                  marks |-> marks]))
 Consumed == TLCGet("stats").diameter - 1 = Len(Trace)
 =============================================================================
